@@ -366,6 +366,92 @@ fn g_int(rng: &mut Rng, len: usize, width: usize) -> G<IntVector> {
     g
 }
 
+// values REACHED by a history of safe calls (the history is the recipe: the model replays it, Model/Hist.v), with a
+// preference for histories whose last length-changing call is a pop, half of them onto a word boundary
+fn g_int_hist(rng: &mut Rng, max_calls: usize) -> G<IntVector> {
+    use crate::c08::{gen_hi, hi_apply, hi_term, hist_width, HI};
+    let w0 = hist_width(rng);
+    let mut v = IntVector::new(w0).unwrap();
+    let mut terms: Vec<String> = Vec::new();
+    let ones = rng.chance(1, 2);
+    let n = 2 + rng.below(max_calls as u64) as usize;
+    let mut apply = |v: &mut IntVector, o: HI, terms: &mut Vec<String>| {
+        let mut c = v.clone();
+        if let Res::Ok(()) = catch(|| hi_apply(&mut c, &o)) {
+            *v = c;
+            terms.push(hi_term(&o));
+        }
+    };
+    for _ in 0..n {
+        let o = gen_hi(rng, v.len(), v.width(), ones);
+        apply(&mut v, o, &mut terms);
+    }
+    match rng.below(4) {
+        0 => {}
+        1 => apply(&mut v, HI::Pop, &mut terms),
+        _ => {
+            // push until one item beyond a word boundary, then pop back onto it (or empty the vector)
+            let w = v.width();
+            let mut guard = 0;
+            while (v.len() * w) % 64 != 0 && guard < 64 {
+                apply(&mut v, HI::Push(if ones { !0u64 } else { rng.next() }), &mut terms);
+                guard += 1;
+            }
+            if rng.chance(1, 3) {
+                while v.len() > 1 {
+                    apply(&mut v, HI::Pop, &mut terms);
+                }
+            } else {
+                apply(&mut v, HI::Push(!0u64), &mut terms);
+            }
+            apply(&mut v, HI::Pop, &mut terms);
+        }
+    }
+    let (len, width) = (v.len(), v.width());
+    let mut g = plain(v, "TIntVec", format!("(RIvH {} [{}])", w0, terms.join("; ")));
+    g.sbp = Some(IntVector::size_by_params(len, width));
+    g.answers = Box::new(|a: &IntVector, b: &IntVector| {
+        a.len() == b.len() && a.width() == b.width() && (0..b.len()).all(|i| a.get(i) == b.get(i))
+    });
+    g
+}
+
+fn g_raw_hist(rng: &mut Rng, max_calls: usize) -> G<RawVector> {
+    use crate::c08::{gen_hr, hr_apply, hr_term, HR};
+    let mut v = RawVector::new();
+    let mut terms: Vec<String> = Vec::new();
+    let ones = rng.chance(1, 2);
+    let n = 2 + rng.below(max_calls as u64) as usize;
+    let mut apply = |v: &mut RawVector, o: HR, terms: &mut Vec<String>| {
+        let mut c = v.clone();
+        if let Res::Ok(()) = catch(|| hr_apply(&mut c, &o)) {
+            *v = c;
+            terms.push(hr_term(&o));
+        }
+    };
+    for _ in 0..n {
+        let nwords = { let w: &[u64] = v.as_ref(); w.len() };
+        let o = gen_hr(rng, v.len(), nwords, ones);
+        apply(&mut v, o, &mut terms);
+    }
+    if rng.chance(1, 2) {
+        let mut guard = 0;
+        while v.len() % 64 != 0 && guard < 64 {
+            apply(&mut v, HR::PushBit(ones || rng.chance(1, 2)), &mut terms);
+            guard += 1;
+        }
+        apply(&mut v, HR::PushBit(true), &mut terms);
+        apply(&mut v, HR::PopBit, &mut terms);
+    }
+    let len = v.len();
+    let mut g = plain(v, "TRaw", format!("(RRawH [{}])", terms.join("; ")));
+    g.sbp = Some(RawVector::size_by_params(len));
+    g.answers = Box::new(|a: &RawVector, b: &RawVector| {
+        a.len() == b.len() && a.count_ones() == b.count_ones() && positions(b.len()).iter().all(|p| a.bit(*p) == b.bit(*p))
+    });
+    g
+}
+
 fn bits_for(rng: &mut Rng, len: usize) -> Vec<bool> {
     let style = pick_style(rng);
     gen_bits(rng, len, style)
@@ -650,7 +736,9 @@ const WIDTHS: [usize; 11] = [1, 2, 7, 8, 13, 31, 32, 33, 62, 63, 64];
 // one random item of a random type; `max` bounds the payload (bits for bit structures, items / 8 for vectors)
 fn random_item(rng: &mut Rng, max: usize) -> Box<dyn Item> {
     let vmax = std::cmp::max(1, max / 64);
-    match rng.below(27) {
+    match rng.below(30) {
+        27 | 28 => Box::new(g_int_hist(rng, 20)),
+        29 => Box::new(g_raw_hist(rng, 20)),
         0 => Box::new(g_u64(rng)),
         1 => Box::new(g_usize(rng)),
         2 => Box::new(g_pair(rng)),
@@ -705,6 +793,12 @@ fn systematic_items(rng: &mut Rng, thorough: bool) -> Vec<Box<dyn Item>> {
         for n in [0usize, 1, 2, 3, 63, 64, 65] {
             v.push(Box::new(g_int(rng, n, w)));
         }
+    }
+    for _ in 0..(if thorough { 120 } else { 40 }) {
+        v.push(Box::new(g_int_hist(rng, 24)));
+    }
+    for _ in 0..(if thorough { 40 } else { 12 }) {
+        v.push(Box::new(g_raw_hist(rng, 24)));
     }
     let support_lens: Vec<usize> = if thorough {
         vec![0, 1, 63, 64, 65, 511, 512, 513, 1023, 1024, 1025, 4095, 4096, 4097, 8191, 8192, 8193, 20000]
